@@ -454,3 +454,96 @@ def import_through_machinery(ctx):
             ctx.violation("sysmodules:%s:%s" % (name, getattr(getattr(r, "_func", None), "name", "<module>")), db.where(r),
                           "`%s` takes a module out of sys.modules without the import lock: while another thread is still importing it (first render that needs a cache plugin or a namespace module) the module is there but incomplete, and the second render fails with AttributeError" % " ".join(src(r).split())[:60])
     ctx.note("sys_modules_reads_in_package", n)
+
+
+_MUTATORS = ("append", "extend", "insert", "pop", "remove", "clear", "update", "setdefault", "add", "discard", "sort", "reverse")
+
+
+def _state_writing_methods(cd):
+    """methods of a class, other than __init__, that change the object's own fields"""
+    out = []
+    for m in cd.body:
+        if not isinstance(m, ast.FunctionDef) or m.name == "__init__" or not m.args.args:
+            continue
+        sp = m.args.args[0].arg
+        for n in walk_func(m):
+            tg = []
+            if isinstance(n, ast.Assign):
+                tg = n.targets
+            elif isinstance(n, (ast.AugAssign, ast.AnnAssign)):
+                tg = [n.target]
+            hit = any(isinstance(x, ast.Attribute) and isinstance(x.value, ast.Name) and x.value.id == sp and isinstance(x.ctx, ast.Store) for t in tg for x in ast.walk(t)) or \
+                any(isinstance(x, ast.Subscript) and isinstance(x.ctx, ast.Store) and isinstance(x.value, ast.Attribute) and isinstance(x.value.value, ast.Name) and x.value.value.id == sp for t in tg for x in ast.walk(t))
+            if not hit and isinstance(n, ast.Call) and isinstance(n.func, ast.Attribute) and n.func.attr in _MUTATORS and isinstance(n.func.value, ast.Attribute) and isinstance(n.func.value.value, ast.Name) and n.func.value.value.id == sp:
+                hit = True
+            if hit:
+                out.append((m, n))
+                break
+    return out
+
+
+@rule("C16.no-shared-instance-state", min_instances=1, props=["C19", "C20", "C03", "C13"])
+def no_shared_instance_state(ctx):
+    """no object created once at import time keeps per-call state: a module-level instance of a class that did not exist on the pinned tree must not have methods that write its own fields (what was a fresh closure / local per call would become state shared by all calls, templates and threads)"""
+    from ..engine import normalize
+    db = ctx.db
+    if not hasattr(db, "_known"):
+        db._known = normalize.load_known()
+    ex = ast.parse("class A:\n    def __init__(self):\n        self.flag = False\n    def __call__(self, x):\n        self.flag = not self.flag\n        return x\nclass B:\n    def __call__(self, x):\n        return x\n")
+    ctx.require(len(_state_writing_methods(ex.body[0])) == 1 and not _state_writing_methods(ex.body[1]), "self-example of the state-writing matcher no longer matches")
+    ctx.ok("self-example", "", "matcher flags a __call__ that flips self.flag and accepts a stateless one")
+    n = 0
+    for name in sorted(db.modules):
+        if name.startswith("testing"):
+            continue
+        tree = db.modules[name].tree
+        classes = {c.name: c for c in tree.body if isinstance(c, ast.ClassDef)}
+        for s_ in tree.body:
+            if not (isinstance(s_, ast.Assign) and isinstance(s_.value, ast.Call) and isinstance(s_.value.func, ast.Name) and s_.value.func.id in classes):
+                continue
+            cd = classes[s_.value.func.id]
+            q = "%s.%s" % (name, cd.name)
+            if any(k == q or k.startswith(q + ".") for k in db._known):
+                continue  # a class of the pinned tree
+            n += 1
+            w = _state_writing_methods(cd)
+            tgt = src(s_.targets[0])
+            ctx.check(not w, "singleton:%s.%s" % (name, tgt), db.where(s_),
+                      "`%s = %s()` is created once when the module is imported, and %s.%s writes the object's own fields (`%s`): what one call leaves behind is seen by the next call, by other templates and by other threads" % (tgt, cd.name, cd.name, w[0][0].name if w else "", " ".join(src(w[0][1]).split())[:60] if w else ""),
+                      "module-level instance without per-call state")
+    ctx.note("new_module_level_instances", n)
+
+
+@rule("C16.render-closures-stateless", min_instances=1, props=["C13"])
+def render_closures_stateless(ctx):
+    """a function that runs once per render (it takes the rendering `context`) keeps nothing on objects it captured from an enclosing scope: such an object exists once per template / decorator application and is shared by concurrent renders"""
+    db = ctx.db
+    n = 0
+    for name in ("runtime", "cache", "template", "lookup", "codegen"):
+        if name not in db.modules:
+            continue
+        for outer in ast.walk(db.modules[name].tree):
+            if not isinstance(outer, ast.FunctionDef):
+                continue
+            for g in ast.walk(outer):
+                if not (isinstance(g, ast.FunctionDef) and g is not outer and any(a.arg == "context" for a in g.args.args)):
+                    continue
+                own = {a.arg for a in g.args.posonlyargs + g.args.args + g.args.kwonlyargs} | ({g.args.vararg.arg} if g.args.vararg else set()) | ({g.args.kwarg.arg} if g.args.kwarg else set())
+                own |= {x.id for x in walk_func(g) if isinstance(x, ast.Name) and isinstance(x.ctx, ast.Store)} | {f.name for f in walk_func(g) if isinstance(f, ast.FunctionDef)}
+                outer_names = {a.arg for f in ast.walk(outer) if isinstance(f, ast.FunctionDef) and f is not g and g in list(ast.walk(f)) for a in f.args.args} | \
+                              {x.id for f in ast.walk(outer) if isinstance(f, ast.FunctionDef) and f is not g and g in list(ast.walk(f)) for x in walk_func(f) if isinstance(x, ast.Name) and isinstance(x.ctx, ast.Store)}
+                n += 1
+                bad = None
+                for st in walk_func(g):
+                    tg = st.targets if isinstance(st, ast.Assign) else [st.target] if isinstance(st, (ast.AugAssign, ast.AnnAssign)) else []
+                    for t in tg:
+                        if isinstance(t, (ast.Attribute, ast.Subscript)):
+                            r = t
+                            while isinstance(r, (ast.Attribute, ast.Subscript)):
+                                r = r.value
+                            if isinstance(r, ast.Name) and r.id not in own and r.id in outer_names and r.id not in ("self", "context"):
+                                bad = (st, r.id)
+                ctx.check(bad is None, "closure:%s.%s" % (name, getattr(g, "_qual", g.name).split(".", 1)[-1]), db.where(g),
+                          "%s runs once per render but stores into `%s`, an object of the enclosing scope that exists once for all renders (`%s`): two concurrent renders with different contexts overwrite each other's value" % (g.name, bad[1] if bad else "", " ".join(src(bad[0]).split())[:70] if bad else ""),
+                          "per-render function keeps nothing on captured objects")
+    ctx.require(n >= 1, "no nested per-render function (with a `context` parameter) found in runtime (anchor)")
